@@ -431,7 +431,7 @@ class FnOverlay:
         self.fo.ov.rewrites.append({"rule": rule, "fn": self.path, "old": _norm_ws(old), "new": _norm_ws(new)})
         return self
 
-    def cut(self, text, name, params, call, ensures=(), requires=(), ret=None):
+    def cut(self, text, name, params, call, ensures=(), requires=(), ret=None, tail=None):
         """CUT: one expression/statement outside Verus' subset is replaced by a call to a function whose BODY IS THE
         ORIGINAL TEXT VERBATIM and which is external_body with an ASSUMED contract.  Anchored on the exact text:
         any change inside it loses the anchor (UNDECIDED), it is never silently trusted."""
@@ -446,7 +446,7 @@ class FnOverlay:
             spec += "\n    requires " + ", ".join(requires) + ","
         if ensures:
             spec += "\n    ensures " + ", ".join(ensures) + ","
-        body = "#[verifier::external_body]\n" + sig + spec + "\n{\n    " + orig + "\n}\n"
+        body = "#[verifier::external_body]\n" + sig + spec + "\n{\n    " + orig + ("\n    " + tail if tail else "") + "\n}\n"
         if encl:
             im = max(encl, key=lambda x: x["start"])
             header = fo.src(im["start"], im["brace_start"] + 1)
@@ -490,6 +490,23 @@ class FnOverlay:
                                   "precomputed": "discharged" if ok else "failed",
                                   "detail": None if ok else f"limbs {[hex(l) for l in limbs]} denote {hex(val)}, expected {hex(expected_cv % R_)}"})
         fo.ov.rewrites.append({"rule": "CUT-const", "fn": self.path, "old": _norm_ws(orig), "new": f"let {name} = Self::{fn}();"})
+        return self
+
+    def for_each_to_loop(self, old, pat, iter_expr, body, iter_name=None, invariant=(), loop_tag="fe"):
+        """D1: `X.for_each(|p| B)` => `for p in X { B }` (the loop that defines Iterator::for_each), with loop
+        invariants attached as tagged obligations."""
+        fo = self.fo
+        s, e = fo.find_unique(old, *self._span(), what=f"(fn {self.path})")
+        head = f"for {pat} in " + (f"{iter_name}: " if iter_name else "") + iter_expr
+        fo.replace(s, e, head, note=f"D1: `{_norm_ws(old)[:120]}` => `{head} {{ {_norm_ws(body)[:80]} }}` in {self.path}")
+        fo.ov.rewrites.append({"rule": "D1", "fn": self.path, "old": _norm_ws(old), "new": head + " { " + _norm_ws(body) + " }"})
+        if invariant:
+            fo.insert(e, "\n    invariant\n")
+            for k, c in enumerate(invariant):
+                tag = f"{self.unit}.loop_{loop_tag}.inv.{k}"
+                fo.insert(e, f"        {c},\n", tag=tag)
+                fo.ov.obligations.append({"id": tag, "unit": self.unit, "kind": "invariant", "text": _norm_ws(c)})
+        fo.insert(e, "{ " + body + " }")
         return self
 
     def demut_self(self):
